@@ -82,6 +82,10 @@ def r1_r2(ctx, Fs):
         detail = ' <- '.join(chain)
         if chain and chain[0] == 'match-discriminant':
             names = discr_names(b, F)
+            if not names:
+                # the variant is tested with `==` (derived PartialEq) instead of a `match`: no discriminant read in the body; the values of the
+                # backend's sign enum (core::cmp::Ordering: -1, 0, 1; num_bigint::Sign: 0, 1, 2 in declaration order)
+                names = {'malachite': {-1: 'Less', 0: 'Equal', 1: 'Greater'}, 'num': {0: 'Minus', 1: 'NoSign', 2: 'Plus'}}.get(cfg.split('_')[0], {})
             # evaluate the decision tree for each discriminant value
             leaves = dtab.b_leaves(as_rf(v))
             subj = None
